@@ -46,7 +46,7 @@ def _model_registry(chk, thorough):
     if thorough:
         api = src.replace("MaxDepth = 9", "MaxDepth = 60").replace("WithApi = FALSE", "WithApi = TRUE").replace("WithFaults = FALSE", "WithFaults = TRUE")
         open(os.path.join(core.SPEC, "MC_Libec_api_full.cfg"), "w").write(api)
-        r2 = tlc("MC_Libec", "MC_Libec_api_full", workers=8, timeout=1500, tag="api")
+        r2 = tlc("MC_Libec", "MC_Libec_api_full", workers=8, timeout=5000, tag="api")
         chk.add_tlc(r2, "MC_Libec_api_full")
         if not r2.ok:
             chk.violation({"event": "model", "cfg": "MC_Libec_api_full"}, "API model violates an invariant: %s" % r2.out[-2000:])
@@ -228,7 +228,7 @@ def c16():
     m1 = _bg(_model_registry, chk, True)
     # G: TLC behaviours of the API model (ownership actions) -- edge cover up to a depth + simulation
     r, paths = _edge_paths([("EmitPaths = FALSE", "EmitPaths = TRUE"), ("WithApi = FALSE", "WithApi = TRUE"),
-                            ("Slots = {1, 2, 3}", "Slots = {1, 2}"), ("MaxDepth = 9", "MaxDepth = %d" % (8 if thorough else 6))], "apiedges", timeout=1500)
+                            ("Slots = {1, 2, 3}", "Slots = {1, 2}"), ("MaxDepth = 9", "MaxDepth = %d" % (8 if thorough else 6))], "apiedges", timeout=4000)
     chk.parts["edge_paths_replayed"] = len(paths)
     scripts = ["\n".join(H.path_to_script(p, i)) for i, p in enumerate(paths)]
     nrand = 600 if thorough else 80
@@ -523,7 +523,7 @@ def c17():
     # registry and ownership state, followed by every continuation up to the depth bound
     r, paths = _edge_paths([("EmitPaths = FALSE", "EmitPaths = TRUE"), ("WithApi = FALSE", "WithApi = TRUE"),
                             ("WithFaults = FALSE", "WithFaults = TRUE"), ("Slots = {1, 2, 3}", "Slots = {1, 2}"),
-                            ("MaxDepth = 9", "MaxDepth = %d" % (7 if thorough else 6))], "faultedges", timeout=1500)
+                            ("MaxDepth = 9", "MaxDepth = %d" % (7 if thorough else 6))], "faultedges", timeout=4000)
     chk.add_tlc(r, "MC_Libec_faultedges")
     if not r.ok:
         chk.violation({"event": "model", "cfg": "MC_Libec_faultedges"}, "API model with failing backend operations violates a property: %s" % r.out[-1500:])
